@@ -490,9 +490,18 @@ class Interp(object):
             kv = self.ev(ctx, fr, k)
             key = self.models.conc_key(kv)
             if key is None:
-                self.unsupported('dict display with a symbolic key', node)
+                return self._symbolic_dict_display(ctx, fr, node)
             conc[key] = self.ev(ctx, fr, v)
         return ctx.alloc(HDict(conc=conc))
+
+    def _symbolic_dict_display(self, ctx, fr, node):
+        d = ctx.alloc(HDict(dom=Z.empty_set(Z.Str), arr=z3.K(Z.Str, Z.NONE), kt=TStr, vt=TObj()))
+        for k, v in zip(node.keys, node.values):
+            kv = self.resolve(ctx, self.ev(ctx, fr, k))
+            if not isinstance(kv, VStr):
+                self.unsupported('dict display with a symbolic non-string key', node)
+            self.models.dict_set(self, ctx, d, kv, self.ev(ctx, fr, v), node)
+        return d
 
     def ev_Lambda(self, ctx, fr, node):
         return VRepoFunc('%s.<lambda>' % fr.qualname, node, fr.module, closure=fr, cls=fr.cls)
